@@ -267,6 +267,9 @@ impl Gen {
                 E::Number(self.r.range(0, 100) as i128),
             )));
         }
+        if self.boundary_ints {
+            return E::Number(boundary_i128(&mut self.r));
+        }
         E::Number(self.r.range(0, 2_000_000_000) as i128)
     }
 
